@@ -36,6 +36,7 @@ def main():
     ap.add_argument("--tier", default="quick")
     ap.add_argument("--keep", default=None)
     ap.add_argument("--seeds", default="1")
+    ap.add_argument("--base", default="HEAD", help="commit of /repo the patch was made against (when later fixes touch the same lines)")
     a = ap.parse_args()
     seed_dir = os.path.join(a.agent_wt, "_seed")
     patch = os.path.join(seed_dir, "patch.diff")
@@ -44,10 +45,10 @@ def main():
         raise SystemExit(f"missing {patch} or {demo}")
     wt = f"/tmp/seedverify-{a.prop}-{os.getpid()}"
     sh(["git", "-C", "/repo", "worktree", "remove", "--force", wt])
-    r = sh(["git", "-C", "/repo", "worktree", "add", "--detach", wt, "HEAD"])
+    r = sh(["git", "-C", "/repo", "worktree", "add", "--detach", wt, a.base])
     if r.returncode:
         raise SystemExit(r.stderr)
-    meta = {"property": a.prop, "repo_head": sh(["git", "-C", "/repo", "rev-parse", "--short", "HEAD"]).stdout.strip()}
+    meta = {"property": a.prop, "repo_head": sh(["git", "-C", "/repo", "rev-parse", "--short", a.base]).stdout.strip()}
     try:
         # the agent's demo refers to its own worktree path: rewrite to ours
         os.makedirs(os.path.join(wt, "_seed"), exist_ok=True)
